@@ -43,6 +43,7 @@ func fileUniverse() []fnode {
 	f1 := mk("F1", "f1.txt", MTLayer, "same-bytes")
 	f1b := mk("F1b", "sub/g.txt", MTLayer, "same-bytes")
 	f2 := mk("F2", "f2.txt", MTLayer, "other")
+	f3 := mk("F3", "f1.txt", MTLayer, "other bytes under the first name") // the name f1.txt again, with different content
 	u := mk("U", "", MTLayer, "unnamed")
 	c := mk("C", "", MTConfig, "{}")
 	// manifest referencing the named layers with their titles
@@ -53,7 +54,7 @@ func fileUniverse() []fnode {
 	man.SchemaVersion = 2
 	mb, _ := jsonMarshal(man)
 	m := fnode{"M", ocispec.Descriptor{MediaType: ocispec.MediaTypeImageManifest, Digest: digest.FromBytes(mb), Size: int64(len(mb))}, mb}
-	return []fnode{f1, f1b, f2, u, c, m}
+	return []fnode{f1, f1b, f2, u, c, m, f3}
 }
 
 type fop struct {
@@ -176,6 +177,7 @@ func fileRun(c *driver.Ctx, u []fnode, ops []fop, opt string, depth int) (func()
 		st, dir := newFile(opt)
 		defer func() { st.Close(); os.RemoveAll(dir) }()
 		pushed := map[int]bool{}
+		nameOwner := map[string]int{} // file name -> the node whose content holds it
 		lastTag := map[string]int{}
 		var okOps []fop
 		failf := func(sig, detail string) {
@@ -195,6 +197,21 @@ func fileRun(c *driver.Ctx, u []fnode, ops []fop, opt string, depth int) (func()
 			named := n.desc.Annotations[ocispec.AnnotationTitle] != ""
 			switch op.kind {
 			case "push":
+				title := n.desc.Annotations[ocispec.AnnotationTitle]
+				// who holds the name right now (pushed directly, or materialised by a manifest push)
+				for i, x := range u {
+					if x.desc.Annotations[ocispec.AnnotationTitle] == title && strings.Contains(before, x.name+":exists=true") {
+						nameOwner[title] = i
+					}
+				}
+				if o, taken := nameOwner[title]; named && taken && o != op.node {
+					// the name is held by other content: duplicate-name, and nothing changes
+					if !errors.Is(err, file.ErrDuplicateName) {
+						failf("push under a name that other content holds was not refused with duplicate-name", fmt.Sprint(err)+"\n"+after)
+						return
+					}
+					break
+				}
 				switch {
 				case err == nil:
 					if !named && opt == "ignorenoname" {
@@ -205,6 +222,9 @@ func fileRun(c *driver.Ctx, u []fnode, ops []fop, opt string, depth int) (func()
 						return
 					}
 					pushed[op.node] = true
+					if named {
+						nameOwner[title] = op.node
+					}
 				case pushed[op.node]:
 					if !errors.Is(err, errdef.ErrAlreadyExists) && !errors.Is(err, file.ErrDuplicateName) {
 						failf("repeated push refused with an unexpected error", err.Error())
@@ -213,6 +233,7 @@ func fileRun(c *driver.Ctx, u []fnode, ops []fop, opt string, depth int) (func()
 				case errors.Is(err, file.ErrDuplicateName) && named && strings.Contains(before, n.name+":exists=true"):
 					// materialised earlier by a manifest push (restoreDuplicates): counts as present
 					pushed[op.node] = true
+					nameOwner[title] = op.node
 				default:
 					failf("push of absent, well-formed content failed", err.Error()+"\n"+before)
 					return
